@@ -531,11 +531,309 @@ def typed_filter_probes(report, backend, rng, keys, n_probes=None):
         relay.close()
 
 
+# ---------------------------------------------------------------------------------------------------------------------------
+# SEVERAL stored queries of ONE connection in flight at the same time.
+#
+# A client may open its subscriptions back to back and close or replace any of them while the stored answers of the others are
+# still being produced.  The property is stated per subscription: what happens to subscription b (CLOSE, a REQ re-using its id,
+# its own EOSE) must not show in the answer of subscription a.  The sessions above settle after every message (every query has
+# finished before the next message arrives), and the held queries of C05 / midstream_cancel are ended themselves; here the
+# queries of 2-5 subscriptions of one connection are kept in flight from outside — suspended at their start (before the first row
+# is asked for) or mid-stream (after j of their events were queued) or left running — while CLOSE / replacement / fresh REQs /
+# releases hit the OTHER subscriptions as well as the suspended ones, in a drawn order.  Then everything is released.
+# Oracle (label-free, on the transcript of the connection alone; the expected answers are known by construction of the store):
+#   * an incarnation (a REQ of an id) that was neither closed nor replaced is answered by every stored event its filter matches,
+#     each once, and by an EOSE after them (exactly one EOSE that is its own: an incarnation that was replaced while its query
+#     was running may, on LMDB, still deliver the one EOSE it owes under the same id — the property grants at most one per REQ);
+#   * once an incarnation was closed or replaced (and the loop has settled) no further stored event of it is sent, and never a
+#     second EOSE;
+#   * the connection handler survives and nothing is registered after the connection has gone.
+# ---------------------------------------------------------------------------------------------------------------------------
+# (kind, how many stored events): answers long enough that "mid-stream" is really in the middle (above every j at which a stream is
+# suspended), two single-event answers and an empty one; chosen on general grounds, not after any implementation.  The whole store
+# stays within the harness' max_limit (common.MAX_LIMIT = 20) so that no answer is truncated: which events a limit keeps is C12's
+# question, not this property's
+CONCURRENT_STORE = [(1, 9), (7, 5), (40, 4), (41, 1), (42, 0), (43, 1)]
+
+
+def gen_concurrent_script(rng, pks):
+    """a list of operations on one connection: ("req", id, filter, mode, j) with mode in start / mid / free (where the query of this
+    REQ is suspended: at its start, after j queued events, not at all), ("close", id), ("release", id).  The first REQ is always
+    suspended, one to three further REQs follow behind it, then one to five disturbances, then every suspended query is released
+    in a drawn order."""
+    names, seen = [], set()
+    for nm in rng.sample(psess.SUB_NAMES, len(psess.SUB_NAMES)):
+        if psess.sub_key(nm) not in seen:
+            seen.add(psess.sub_key(nm))
+            names.append(nm)
+    if rng.random() < 0.6:
+        names = ["a", "b", "c", "d", "e"] + [n for n in names if n not in ("a", "b", "c")]
+    names = names[:6]
+    kinds = [k for k, _ in CONCURRENT_STORE]
+
+    def flt():
+        f = {"kinds": rng.sample(kinds, rng.choice([1, 1, 1, 2, 3]))}
+        if rng.random() < 0.25:
+            f["authors"] = rng.sample(pks, rng.randint(1, 2))
+        return f
+
+    def mode(first=False):
+        m = rng.choice(["start", "mid"] if first else ["start", "mid", "mid", "free", "free"])
+        return m, rng.choice([1, 2, 3])
+
+    ops, open_, held, fresh = [], [], [], list(names)
+
+    def req(nm, first=False):
+        m, j = mode(first)
+        ops.append(("req", nm, flt(), m, j))
+        if nm not in open_:
+            open_.append(nm)
+        if nm in held:
+            held.remove(nm)
+        if m != "free":
+            held.append(nm)
+
+    req(fresh.pop(0), first=True)
+    for _ in range(rng.randint(1, 3)):
+        req(fresh.pop(0))
+    for _ in range(rng.randint(1, 5)):
+        r = rng.random()
+        # the subscriptions behind the first one are the likelier targets: the first one's query is (still) suspended meanwhile
+        target = rng.choice(open_[1:] if (len(open_) > 1 and rng.random() < 0.75) else open_) if open_ else None
+        if r < 0.35 and target is not None:
+            ops.append(("close", target))
+            open_.remove(target)
+            if target in held:
+                held.remove(target)
+        elif r < 0.65 and target is not None:
+            req(target)
+        elif r < 0.8 and len(held) > 1:
+            nm = rng.choice(held)
+            held.remove(nm)
+            ops.append(("release", nm))
+        elif r < 0.9 and fresh:
+            req(fresh.pop(0))
+        else:
+            ops.append(("close", rng.choice(["nosuch", fresh[0] if fresh else "nosuch"])))
+    rng.shuffle(held)
+    for nm in held:
+        ops.append(("release", nm))
+    return ops
+
+
+def concurrent_queries(report, backend, rng, keys, n_scripts):
+    import asyncio
+    from lib import proto
+    from lib.proto import Conn
+
+    assert sum(n for _, n in CONCURRENT_STORE) <= common.MAX_LIMIT, "the store of this family must fit into max_limit"
+    relay = Relay(backend)
+    cls = relay.storage.subscription_class
+    orig_run_query = cls.run_query
+    orig_put = proto._RecQueue.put
+    held0 = proto.HELD["n"]
+    state = {"queue": None, "gates": {}}       # gates: sub id -> {"mode", "j", "n" (events queued so far), "ev": asyncio.Event}
+    all_gates = []
+
+    async def wait_at(gate):
+        proto.HELD["n"] += 1
+        try:
+            await gate["ev"].wait()
+        finally:
+            proto.HELD["n"] -= 1
+
+    async def run_query(sub):
+        gate = state["gates"].get(sub.sub_id)
+        if gate is not None and sub.queue is state["queue"] and gate["mode"] == "start" and not gate["ev"].is_set():
+            await wait_at(gate)
+        return await orig_run_query(sub)
+
+    async def put(self, item):
+        if self is state["queue"] and isinstance(item, tuple) and len(item) == 2 and item[1] is not None:
+            gate = state["gates"].get(item[0])
+            if gate is not None and gate["mode"] == "mid" and not gate["ev"].is_set():
+                gate["n"] += 1
+                if gate["n"] > gate["j"]:
+                    await wait_at(gate)
+        return await orig_put(self, item)
+
+    try:
+        cls.run_query = run_query
+        proto._RecQueue.put = put
+        pub = Conn(relay, remote_addr="3.3.3.3")
+        stored = []
+        pks = [k.public_key.hex() for k in keys]
+        t = 0
+        for kind, n in CONCURRENT_STORE:
+            for i in range(n):
+                t += 1
+                ev = relay.signed_event(keys[(i + kind) % len(keys)], kind=kind, content="kept %d/%d %s" % (kind, i, backend),
+                                        created_at=1700000000 + 10 * t)
+                if pub.send_event(ev):
+                    stored.append(ev)
+        if len(stored) != sum(n for _, n in CONCURRENT_STORE):
+            report.property_failure("%s: the store of the concurrent-queries family could not be set up" % backend,
+                                    {"backend": backend, "case": "concurrent-queries"}, None)
+            return
+
+        def finalise_abandoned():
+            """A query task cancelled while it waits to queue an event leaves the storage's row generator suspended, un-closed; on the
+            SQL backend that generator holds a query slot (num_concurrent_reqs) and a pooled connection until the interpreter
+            finalises it, which for generators caught in a reference cycle is whenever the cycle collector next runs.  This family
+            ends hundreds of queries that way in a few seconds; so that its verdicts do not depend on the collector's schedule the
+            collector is run here, and what it alone gave back is COUNTED (distribution: concurrent_query_slots_freed_only_by_gc) —
+            see the report of round 12: REQs of any client wait for a slot meanwhile."""
+            import gc
+
+            slot = getattr(relay.storage, "query_slot", None)
+            before = getattr(slot, "_value", None)
+            import warnings
+
+            with warnings.catch_warnings():
+                warnings.simplefilter("ignore")      # SQLAlchemy says the same thing once per connection; it is counted below
+                gc.collect()
+            relay.settle(max_s=1.5)
+            after = getattr(slot, "_value", None)
+            if before is not None and after is not None and after > before:
+                report.count("concurrent_query_slots_freed_only_by_gc", after - before)
+
+        def answer(f):
+            return sorted(e["id"] for e in stored if e["kind"] in f["kinds"] and ("authors" not in f or e["pubkey"] in f["authors"]))
+
+        for s in range(n_scripts):
+            ops = gen_concurrent_script(rng, pks)
+            c = Conn(relay, remote_addr="10.1.%d.%d" % (s // 200, s % 200))
+            state["queue"], state["gates"] = c._queue, {}
+            # incarnations: one per REQ; [sub key, expected ids, start position in c.out, end position (None = never ended), op index]
+            incs, live = [], {}
+            sent = []
+            in_flight_max = 0
+            other_hit = False
+            settled_before = {}        # c.out position of an ending step -> was the loop quiescent when the step began?
+            quiet = True
+
+            def others_in_flight(key):
+                return any(not g["ev"].is_set() for kk, g in state["gates"].items() if kk != key)
+            for k, op in enumerate(ops):
+                pos = len(c.out)
+                # does this step end an incarnation whose query is suspended (the only way a query is cut short here)?
+                cut_short = op[0] in ("req", "close") and psess.sub_key(op[1]) in live and \
+                    not state["gates"][psess.sub_key(op[1])]["ev"].is_set()
+                if op[0] == "req":
+                    _, nm, f, m, j = op
+                    key = psess.sub_key(nm)
+                    if key in live:
+                        live.pop(key)[3] = pos
+                        other_hit = other_hit or others_in_flight(key)
+                    state["gates"][key] = {"mode": m, "j": j, "n": 0, "ev": asyncio.Event()}
+                    all_gates.append(state["gates"][key])
+                    inc = [key, answer(f), pos, None, k]
+                    incs.append(inc)
+                    live[key] = inc
+                    sent.append({"send": ["REQ", nm, f], "query_suspended": m if m != "mid" else "after %d events" % j})
+                    c.send(["REQ", nm, f], settle=False)
+                elif op[0] == "close":
+                    key = psess.sub_key(op[1])
+                    if key in live:
+                        live.pop(key)[3] = pos
+                        settled_before[pos] = quiet
+                        other_hit = other_hit or others_in_flight(key)
+                    sent.append({"send": ["CLOSE", op[1]]})
+                    c.send(["CLOSE", op[1]], settle=False)
+                else:
+                    key = psess.sub_key(op[1])
+                    sent.append({"release_query_of": op[1]})
+                    if key in state["gates"]:
+                        state["gates"][key]["ev"].set()
+                # (a short bound: on a sound relay the loop is quiescent — but for the suspended queries — within milliseconds)
+                relay.settle(max_s=1.5)
+                if cut_short:
+                    finalise_abandoned()
+                quiet = relay.quiescent()
+                in_flight_max = max(in_flight_max, proto.HELD["n"])
+            for g in all_gates:
+                g["ev"].set()
+            relay.settle(max_s=8.0)
+            payload = {"backend": backend, "case": "concurrent-queries", "script": s, "steps_on_one_connection": sent,
+                       "stored_events_by_kind": dict(("%d" % k2, n) for k2, n in CONCURRENT_STORE)}
+            frames = [(p, x) for p, x in enumerate(c.frames()) if isinstance(x, list) and len(x) > 1 and x[0] in ("EVENT", "EOSE")]
+            n_req = Counter(i2[0] for i2 in incs)
+            for key in n_req:
+                total_eose = sum(1 for p, x in frames if x[0] == "EOSE" and x[1] == key)
+                if total_eose > n_req[key]:
+                    report.property_failure("%s: %d EOSE frames for subscription id %r, which was requested %d time(s)"
+                                            % (backend, total_eose, key, n_req[key]), payload, None)
+            for idx, (key, want, start, end, k) in enumerate(incs):
+                mine = [(p, x) for p, x in frames if x[1] == key and p >= start]
+                if end is None:
+                    got = sorted(x[2].get("id") for p, x in mine if x[0] == "EVENT")
+                    n_eose = sum(1 for p, x in mine if x[0] == "EOSE")
+                    # EOSE frames that earlier incarnations of this id (ended while their query was running) may still deliver: the
+                    # property grants every REQ at most one
+                    earlier = sum(1 for i2 in incs[:idx] if i2[0] == key)
+                    owed = max(0, earlier - sum(1 for p, x in frames if x[0] == "EOSE" and x[1] == key and p < start))
+                    what = None
+                    if got != want:
+                        what = "was answered by %d of its %d stored events (%d of them not its own or repeated)" % (
+                            len(set(got) & set(want)), len(want), len(got) - len(set(got) & set(want)))
+                    elif n_eose < 1 or n_eose > 1 + owed:
+                        what = "was answered by its %d stored events and %d EOSE" % (len(want), n_eose)
+                    elif mine[-1][1][0] != "EOSE":
+                        what = "was sent a stored event after its EOSE"
+                    if what is not None:
+                        others = sorted(set(str(o[1]) for o in ops[k + 1:] if o[0] in ("req", "close") and psess.sub_key(o[1]) != key))
+                        report.property_failure(
+                            "%s: several stored queries of one connection in flight: the REQ %r (step %d), which was neither closed nor "
+                            "replaced, %s after its query was released (meanwhile the client closed / requested other subscriptions: %s)%s"
+                            % (backend, key, k, what, ", ".join(others) or "none",
+                               "" if c.closed_with is None else "; the relay closed the connection with code %s" % c.closed_with),
+                            dict(payload, failing_step=k), None)
+                    report.count("concurrent_survivors")
+                else:
+                    # ended at c.out position `end` (the loop was settled after that step): from the end of THAT step on, nothing of it
+                    nxt = [i2 for i2 in incs[idx + 1:] if i2[0] == key]
+                    until = nxt[0][2] if nxt else len(c.out)
+                    late = [x for p, x in frames if x[1] == key and x[0] == "EVENT" and end <= p < until]
+                    # a frame that was already queued when the CLOSE was read may still go out; when the loop was quiescent before
+                    # the CLOSE step the queue was empty (a suspended query has queued its first j events, all sent by then) — so
+                    # any stored event here was produced after the CLOSE.  (A replaced incarnation is judged through its successor.)
+                    if late and settled_before.get(end, False):
+                        report.property_failure("%s: several stored queries of one connection in flight: %d stored event(s) were sent for "
+                                                "subscription %r after its CLOSE" % (backend, len(late), key), dict(payload, failing_step=k), None)
+                    report.count("concurrent_ended")
+            if c.exc is not None:
+                report.property_failure("%s: an exception escaped the connection handler: %r" % (backend, c.exc), payload, None)
+            if c.closed_with is not None:
+                report.property_failure("%s: the relay closed a connection (code %s) whose client only sent REQ and CLOSE frames"
+                                        % (backend, c.closed_with), payload, None)
+            c.close()
+            for opname in ("req", "close", "release"):
+                report.count("concurrent_op_" + opname, sum(1 for o in ops if o[0] == opname))
+            report.count("concurrent_in_flight_max_%d" % min(in_flight_max, 5))
+            report.count("concurrent_scripts_" + backend)
+            report.case(("concurrent", backend, json.dumps(sent, sort_keys=True)), nontrivial=other_hit,
+                        sample={"case": "concurrent-queries", "backend": backend, "steps": sent} if s == 0 else None)
+            if report.violations and any((v.get("replay") or {}).get("case") == "concurrent-queries" for v in report.violations):
+                break           # one failing script is enough; a relay whose queries hang makes every further step wait for its bound
+        pub.close()
+        if any(v for v in relay.open_subscriptions().values()):
+            report.property_failure("%s: subscriptions survive their connections: %r" % (backend, relay.open_subscriptions()),
+                                    {"backend": backend, "case": "concurrent-queries"}, None)
+    finally:
+        cls.run_query = orig_run_query
+        proto._RecQueue.put = orig_put
+        for g in all_gates:
+            g["ev"].set()
+        relay.close()
+        proto.HELD["n"] = held0
+
+
 def run(report, tier, seed):
     rng = random.Random(seed)
     # the families added later draw from a stream of their own (a function of the seed): the sessions of the older families stay
     # what they were for a given seed
     rng_comb = random.Random("%d/filters-invalid-in-combination" % seed)
+    rng_conc = random.Random("%d/concurrent-queries-of-one-connection" % seed)
     drv = common.Driver()
     from aionostr.key import PrivateKey
 
@@ -554,6 +852,12 @@ def run(report, tier, seed):
         "probes: 27 JSON values at each of 13 filter fields (the full product; thorough: + 3000 draws) x 0-3 such tag conditions, "
         "alone or next to a valid filter, on one connection that must go on answering (exactly one EOSE or NOTICE per REQ, the "
         "next REQ gets the whole stored answer); "
+        "several stored queries of ONE connection in flight at once: 40 (thorough: 600) scripts per backend over a store of 20 events "
+        "of six kinds: a REQ whose query is suspended from outside (at its start or after 1 / 2 / 3 queued events), 1-3 further REQs "
+        "behind it (suspended at the start / mid-stream / running freely), then 1-5 of CLOSE / REQ re-using an id / fresh REQ / "
+        "release / CLOSE of an unknown id aimed mostly at the OTHER subscriptions, then every query released in a drawn order "
+        "(every REQ neither closed nor replaced gets all its stored events once and its EOSE after them, a closed one no further "
+        "stored event, no id more EOSEs than REQs); "
         "the loop is settled after every message; non-trivial = the session has a refused REQ or a CLOSE")
     report.assumptions += ["quiescence after every message (interleavings inside a step are whatever the event loop does; "
                            "all interleavings are covered by the theorems over `run`, not by this check)"]
@@ -565,6 +869,7 @@ def run(report, tier, seed):
             typed_filter_probes(report, backend, rng_comb, keys)
             if tier != "quick":
                 typed_filter_probes(report, backend, rng_comb, keys, n_probes=3000)
+            concurrent_queries(report, backend, rng_conc, keys, 40 if tier == "quick" else 600)
         for i in range(10 if tier == "quick" else 250):
             for backend in ("sql", "kv"):
                 check_session(report, drv, backend, rng, keys, i)
